@@ -6,6 +6,7 @@ import (
 	"go/types"
 	"os"
 	"path/filepath"
+	"regexp"
 	"sort"
 	"strings"
 
@@ -155,6 +156,9 @@ func (p *Prog) closedFor(t types.Type) ([]types.Type, bool) {
 	return ts, true
 }
 
+var ghostDeclRe = regexp.MustCompile(`^(\$[A-Za-z0-9_]+)\s+(\S+)\s*=\s*(.*)$`)
+var setsRe = regexp.MustCompile(`^(\$[A-Za-z0-9_]+)\s*=\s*(.*)$`)
+
 // ---- running one unit ---------------------------------------------------------------
 
 func (p *Prog) newUnit(fn *ssa.Function) *Unit {
@@ -190,6 +194,29 @@ func (p *Prog) verifyFunc(fn *ssa.Function) (u *Unit) {
 	u.ss.tagOrder = append(u.ss.tagOrder, "tag.plainerror")
 	u.entry = s // provisional, so that requires can be translated
 	if u.fc != nil {
+		for _, c := range u.fc.Clauses {
+			if c.Kind != "ghost" {
+				continue
+			}
+			// ghost $name Sort = expr
+			m := ghostDeclRe.FindStringSubmatch(c.Expr)
+			if m == nil {
+				panic(abortUnit{fmt.Sprintf("%s:%d: bad ghost declaration", c.File, c.Line)})
+			}
+			env := u.bodyEnv(s, fn)
+			env.paramsEntry = true
+			t, err := env.term(m[3])
+			if err != nil {
+				panic(abortUnit{fmt.Sprintf("%s:%d: %v", c.File, c.Line, err)})
+			}
+			if t.Sort == "Nil" {
+				t, _ = env.coerceNil(t, Term{Sort: m[2]})
+			}
+			if t.Sort != m[2] {
+				panic(abortUnit{fmt.Sprintf("%s:%d: ghost %s has sort %s, initialiser %s", c.File, c.Line, m[1], m[2], t.Sort)})
+			}
+			s.ghost[m[1]] = Term{S: t.S, Sort: t.Sort}
+		}
 		for _, c := range u.fc.Clauses {
 			if c.Kind == "requires" || c.Kind == "assume" {
 				env := u.bodyEnv(s, fn)
